@@ -6,4 +6,4 @@ _Bool __verif_crash_is_bug;
 unsigned long long __verif_last_load;
 const volatile void *__verif_last_load_p;
 int __verif_last_load_mo;
-const volatile void *__verif_ptrloc; void *__verif_ptrobj;
+const volatile void *__verif_ptrloc; void *__verif_ptrobj; unsigned long long __verif_ptralt;
